@@ -249,6 +249,10 @@ impl Walrus {
                         }
                     }
                 }
+            } else if tail_snapshot.0 == active_block.id {
+                // The in-memory cursor is already inside the active block: resume there.
+                // Nothing new to record (persisting offset 0 here would rewind the durable cursor).
+                persisted_tail = Some((active_block.id, tail_snapshot.1));
             } else {
                 // No persisted tail; init at current active block start
                 persisted_tail = Some((active_block.id, 0));
